@@ -11,6 +11,7 @@ import (
 	"net/http"
 	"net/url"
 	"strings"
+	"sync"
 	"time"
 	"verifmc/env"
 
@@ -384,9 +385,114 @@ func main() {
 					}
 				}
 			}
+			// The context ends while the last bytes of a valid response head are being delivered (the
+			// read in flight still returns them; the dialer's watcher has already put a deadline in
+			// the past on the connection by then). Whatever Dial makes of it - refusing with the
+			// context's error is fine - a connection it hands back with a nil error still yields
+			// every byte the server sent behind the head.
+			for _, n := range []int{1, 40} {
+				for _, rb := range []int{0, 64} {
+					n, rb := n, rb
+					t.Do(func() string {
+						return fmt.Sprintf("Dialer.Dial, read buffer %d, the context is cancelled while the head's last bytes arrive, %d bytes follow on the connection", rb, n)
+					}, func() *explore.Fail {
+						tail := mkTail(n, 0x31)
+						ctx, cancel := context.WithCancel(context.Background())
+						defer cancel()
+						dc := &deadlineNet{lazyNet: mkConn(tail, 0), armed: make(chan struct{}, 8)}
+						headLen := 0
+						dc.LazyConn.Policy = func(max, off int) int {
+							// the head in one read, the tail afterwards
+							if off < headLen && headLen-off < max {
+								return headLen - off
+							}
+							return max
+						}
+						inner := dc.LazyConn.Respond
+						dc.LazyConn.Respond = func(req []byte) []byte {
+							out := inner(req)
+							headLen = len(out) - len(tail)
+							return out
+						}
+						dc.onFirstRead = func() {
+							cancel()
+							// the watcher reacts to the cancellation by moving the deadline into the past
+							select {
+							case <-dc.armed:
+							case <-time.After(10 * time.Second):
+								dc.gaveUp = true
+							}
+						}
+						d := ws.Dialer{ReadBufferSize: rb, NetDial: func(context.Context, string, string) (net.Conn, error) { return dc, nil }}
+						c, br, _, err := d.Dial(ctx, "ws://example.com/chat")
+						if dc.gaveUp {
+							t.Outcome("watcher-did-not-react(not judged)")
+							return nil
+						}
+						if err != nil {
+							t.Outcome("refused-with:" + err.Error())
+							return nil
+						}
+						if got := drain(c, br); !bytes.Equal(got, tail) {
+							return explore.Failf("nil-error-but-connection-unusable", "Dial returned no error after the context had ended; %d bytes follow the head, reader+connection yield %d (deadline on the connection: %v)", n, len(got), dc.deadline)
+						}
+						t.Outcome("accepted-and-usable")
+						return nil
+					})
+				}
+			}
 			t.Outcome("readable-once-in-order")
 		})
 	})
+}
+
+// deadlineNet is a connection that honours deadlines: once a deadline lies in the past every
+// Read that starts afterwards fails with a timeout. The first Read runs onFirstRead before it
+// delivers (a cancellation arriving while that read is in flight).
+type deadlineNet struct {
+	*lazyNet
+	mu          sync.Mutex
+	deadline    time.Time
+	armed       chan struct{}
+	onFirstRead func()
+	reads       int
+	gaveUp      bool
+}
+
+type timeoutErr struct{}
+
+func (timeoutErr) Error() string   { return "i/o timeout" }
+func (timeoutErr) Timeout() bool   { return true }
+func (timeoutErr) Temporary() bool { return true }
+
+func (d *deadlineNet) SetDeadline(t time.Time) error {
+	d.mu.Lock()
+	d.deadline = t
+	d.mu.Unlock()
+	if !t.IsZero() && t.Before(time.Now()) {
+		select {
+		case d.armed <- struct{}{}:
+		default:
+		}
+	}
+	return nil
+}
+func (d *deadlineNet) SetReadDeadline(t time.Time) error  { return d.SetDeadline(t) }
+func (d *deadlineNet) SetWriteDeadline(t time.Time) error { return nil }
+
+func (d *deadlineNet) Read(p []byte) (int, error) {
+	d.reads++
+	if d.reads == 1 && d.onFirstRead != nil {
+		d.onFirstRead()
+		return d.lazyNet.Read(p)
+	}
+	d.mu.Lock()
+	dl := d.deadline
+	d.mu.Unlock()
+	if !dl.IsZero() && dl.Before(time.Now()) {
+		return 0, timeoutErr{}
+	}
+	return d.lazyNet.Read(p)
 }
 
 // lazyNet gives hs.LazyConn the net.Conn methods Dial needs.
